@@ -156,14 +156,6 @@ def features(e):
     return out
 
 
-def sig_features(e):
-    f = features(e)
-    for k in ("div-by-param", "div-by-static", "div-by-literal", "div-by-fluent"):
-        if k in f:
-            return k
-    return "no-div"
-
-
 # ----------------------------------------------------------------------------------------
 # G2: seeded random deeper expressions (thorough tier)
 # ----------------------------------------------------------------------------------------
@@ -251,7 +243,7 @@ def judge(ctx, label, cfgs_path, obs, t1):
     ctx.cov["traces_validated_against_impl"] += len(obs)
     out = {}
     for p in res.printed:
-        if p and isinstance(p[0], str) and p[0] in ("FAIL", "U", "T1-REPAIR", "T1-ASWRITTEN", "T1-DIFF") and len(p) == 4:
+        if p and isinstance(p[0], str) and p[0] in ("FAIL", "FEAT", "U", "T1-REPAIR", "T1-ASWRITTEN", "T1-DIFF") and len(p) == 4:
             t = (p[0], p[2], p[3])
             if t not in out.setdefault(p[1], []):
                 out[p[1]].append(t)
@@ -263,6 +255,9 @@ def report(ctx, cfgs, obs, verdicts, t1, tally):
     for oid, vs in sorted(verdicts.items()):
         o = byid[oid]
         cfg = cfgs[o["cfg"] - 1]
+        feat = [a for tag, a, b in vs if tag == "FEAT"]
+        if len(feat) != (1 if any(tag == "FAIL" for tag, a, b in vs) else 0):
+            raise MachineryError("judge: observation %d has FAIL lines without exactly one FEAT line: %r" % (oid, vs))
         for tag, a, b in vs:
             tally[tag] = tally.get(tag, 0) + 1
             if tag == "U":
@@ -272,12 +267,13 @@ def report(ctx, cfgs, obs, verdicts, t1, tally):
                     sig = "%s|%s" % (a, b)
                     what = "get_fluents raises %s on %s, which has a value on the whole grid [%s]" % (b, show(o["e"]), cfg["tag"])
                 else:
-                    sig = "%s|%s|%s" % (a, sig_features(o["e"]), cfg["qtag"])
+                    sig = "%s|%s" % (a, feat[0])
                     what = "get_fluents(%s) = (%s, %s, %s) with %s: clause %s%s" % (
                         show(o["e"]), o["res"]["lin"], o["res"]["pos"], o["res"]["neg"], cfg["tag"], a, " for fluent " + b if b else "")
                     if a.startswith("kind-"):
                         what = "problem.kind keeps SIMPLE_NUMERIC_PLANNING with precondition %s <= 0 [%s]: %s" % (show(o["e"]), cfg["tag"], a)
-                ctx.violation(sig, what, {"cfg": cfg, "e": o["e"], "res": o["res"], "clause": a, "fluent": b, "expr": show(o["e"])})
+                ctx.violation(sig, what, {"cfg": cfg, "e": o["e"], "res": o["res"], "clause": a, "fluent": b, "feature": feat[0],
+                                          "expr": show(o["e"]), "shape": sorted(features(o["e"]))})
             elif tag == "T1-REPAIR":
                 raise MachineryError(
                     "T1: the repaired design (LinearAnalysis, mode bounds) violates %s (%s) on %s [%s]" % (a, b, show(o["e"]), cfg["tag"]))
@@ -381,6 +377,7 @@ def replay(ctx, data):
     tlc.write_ndjson(cp, [d["cfg"]])
     v = judge(ctx, "replay", cp, [o], False)
     fails = [t for t in v.get(1, []) if t[0] == "FAIL"]
+    print("feature: %s" % [t[1] for t in v.get(1, []) if t[0] == "FEAT"])
     print("get_fluents(%s) [%s] = %r" % (show(o["e"]), d["cfg"]["tag"], o["res"]))
     for t in fails:
         print("still failing: %s %s" % (t[1], t[2]))
@@ -411,7 +408,11 @@ def selftest(ctx):
         ob(11, upj.E("times", [X, two]), True, [], ["x"]),
     ]
     v = judge(ctx, "selftest", cfgs_path, obs, False)
-    got = {i: sorted((t[0], t[1], t[2]) for t in v.get(i, [])) for i in range(1, 12)}
+    got = {i: sorted((t[0], t[1], t[2]) for t in v.get(i, []) if t[0] != "FEAT") for i in range(1, 12)}
+    feats = {i: [t[1] for t in v.get(i, []) if t[0] == "FEAT"] for i in range(1, 12)}
+    if feats[2] != ["nonliteral-divisor-can-be-negative"] or feats[4] != ["no-negative-nonliteral-divisor"]:
+        print("BAD features %r" % feats)
+        return 2
     want = {
         1: [], 2: [("FAIL", "pos-only-not-nondecreasing", "x")], 3: [],
         4: [("FAIL", "pos-only-not-nondecreasing", "y")], 5: [("FAIL", "absent-but-dependent", "y")],
